@@ -83,6 +83,7 @@ class Ctx:
         self.extra = {}
         self.scratch = tempfile.mkdtemp(prefix="vchk_%s_" % pid, dir=tlc.scratch_root())
         SCRATCHES.append(self.scratch)
+        shutil.rmtree(os.path.join(OUT, "replays", pid), ignore_errors=True)
         known = load_known()
         self.known = {f["id"]: f for f in known.get("findings", []) if f.get("property") == pid}
 
@@ -414,12 +415,44 @@ def check_envelope(pid):
                           "every generic/typed decoder on DAG-CBOR and DAG-JSON; non-trivial = the property forbids acceptance")
             if q:
                 break
+        if pid == "C10":
+            cp = c.case_path("C10tok")
+            c.mc("Token", "MC_C07.cfg", dict(Size="quick" if q else "thorough", Deviations="{}", Emit="Emit"), timeout=1500, case_file=cp,
+                 label="constructors: ConstructorsWellFormed over option sets x special classes (undefined principals, nonce lengths)")
+            c.replay("token:C10", cp, rule="constructor half: every option subset x special class; a returned token has a defined issuer, "
+                     "the principals of its type and a nonce >= 12 bytes")
+            tr = c.drive("goargs", 1)
+            c.validate("goargs", "TraceToken", "TraceToken.cfg", tr, rule="Go values of every numeric type at type/safe-integer "
+                       "boundaries (plain, in a slice, in a map) through args.Add, meta.Add, literal.Any, invocation.WithArgument: "
+                       "stored exactly or rejected")
+        if pid == "C06":
+            tr = c.drive("envbytes", 400 if q else 0)
+            c.validate("envbytes", "TraceEnvelope", "TraceEnvelope.cfg", tr, timeout=3000,
+                       rule=("400 random single mutations" if q else "EVERY single-bit flip and every 1-byte insertion / deletion / "
+                             "substitution / truncation offset") + " of sealed delegations and invocations of 3 (quick) / 5 key "
+                            "algorithms, through every decoder; accepted only with unchanged content (TraceEnvelope)")
         c.mc("Envelope", "MC_C06.cfg", dict(MAlg="alg1", MaxOps=2, Deviations='{"TimeU64Wraps"}', Emit=""),
              expect_violation=["Unforgeable"], label="sensitivity: TimeU64Wraps")
         c.mc("Envelope", "MC_C06.cfg", dict(MAlg="alg2", MaxOps=1, Deviations='{"EmptySigSkipsVerify"}', Emit=""),
              expect_violation=["Unforgeable", "NoForgeryOfHonest"], label="sensitivity: EmptySigSkipsVerify")
         return c.finish()
     return run
+
+
+def check_C07(tier):
+    c = Ctx("C07", tier)
+    q = tier == "quick"
+    cp = c.case_path("C07")
+    c.mc("Token", "MC_C07.cfg", dict(Size="quick" if q else "thorough", Deviations="{}", Emit="Emit"), timeout=1500, case_file=cp,
+         label="construct -> seal -> unseal -> compare over option sets x special value classes x algorithm x codec x decoder")
+    for dev in ["TimestampBoundOnDecodeOnly", "DagJsonIntegralFloat"]:
+        c.mc("Token", "MC_C07.cfg", dict(Size="thorough", Deviations='{"%s"}' % dev, Emit=""), expect_violation="RoundTrip",
+             label="sensitivity: " + dev)
+    c.replay("token:C07", cp, rule="every subset of options of both token types x one special value class (undefined principals, nonce "
+             "lengths, extreme time bounds, 13 argument/metadata value classes with several concrete values each) x "
+             + ("2 of the 24" if q else "all 24") + " (algorithm, codec, decoder) combinations; both decoders are always run and "
+             "compared; non-trivial = a special class or more than two options")
+    return c.finish()
 
 
 CHAIN = {
@@ -468,7 +501,7 @@ def check_chain(pid):
     return run
 
 
-CHECKS = {"C13": check_C13, "C15": check_C15, "C12": check_C12, "C14": check_C14, "C11": check_C11, "C16": check_C16, "C06": check_envelope("C06"), "C10": check_envelope("C10")}
+CHECKS = {"C13": check_C13, "C15": check_C15, "C12": check_C12, "C14": check_C14, "C11": check_C11, "C16": check_C16, "C06": check_envelope("C06"), "C10": check_envelope("C10"), "C07": check_C07}
 for _p in CHAIN:
     CHECKS[_p] = check_chain(_p)
 
